@@ -6,7 +6,8 @@
    which are models other than keywords, ph gives the placeholder registered for an object's type.  A registered
    printer is an arbitrary behaviour tree (beh): it may return a text that depends on the state it sees, raise,
    look at the state, and call hy-repr on any object -- also one that is being printed -- with any behaviour of
-   that object's printer, continuing as a function of the text it gets back; an exception propagates. *)
+   that object's printer, continuing as a function of the text it gets back; an exception propagates, unless the
+   printer made the call inside try/except (CallCatch), in which case it goes on knowing that the call failed. *)
 From HyV Require Import Print.Syntax Print.Names Print.ReprState Print.ReprScript.
 
 (* The property: for every history of top-level calls, with printers behaving in any of these ways, every call gives
@@ -43,6 +44,14 @@ Theorem C28_nested_call_sees :
           end, st).
 Proof. exact nested_call_sees. Qed.
 Print Assumptions C28_nested_call_sees.
+
+(* A printer that catches the exception of a nested call and carries on does so in the state it had before that call:
+   every nested call restores the state on its OWN exit (it does not rely on the exception reaching an outer call). *)
+Theorem C28_catcher_sees_clean_state :
+  forall (ismodel : nat -> bool) (ph : nat -> text) o inner cont st, inv ismodel st ->
+  printer ismodel ph protected_body (CallCatch o inner cont) st
+  = printer ismodel ph protected_body (cont (fst (hy_repr_call ismodel ph protected_body o inner st))) st.
+Proof. exact catcher_sees_clean_state. Qed.
 
 Theorem C28_invariant_in_printers : forall (ismodel : nat -> bool) o st,
   inv ismodel st -> inv ismodel (enter ismodel o st).
